@@ -50,7 +50,7 @@ WEIGHT_OPS = ('FULLY_CONNECTED', 'CONV_2D', 'DEPTHWISE_CONV_2D',
               'CONV_2D_TRANSPOSE', 'BATCH_MATMUL', 'EMBEDDING_LOOKUP')
 
 S4 = [1, 2, 2, 4]
-IDS = [0, 2, 4, 1]
+IDS = [0, 2, 3, 1]
 
 # (type, variant, number of activation operands)
 VARIANTS = {
@@ -272,9 +272,9 @@ def _opt(cls, **kw):
 class _Ctx:
   """Per-operator build context: names and constant values."""
 
-  def __init__(self, g, tag, pool, opidx, wk, share, sep):
+  def __init__(self, g, tag, pool, opidx, wk, share, sep, wkey=None):
     self.g, self.tag, self.pool, self.opidx = g, tag, pool, opidx
-    self.wk, self.share, self.sep = wk, share, sep
+    self.wk, self.share, self.sep, self.wkey = wk, share, sep, wkey
     self.slot = 0
 
   def name(self, leaf):
@@ -289,8 +289,10 @@ class _Ctx:
         if mode == 'tensor':
           return tid
         return self.g.constant(self.name(leaf), arr, buffer=buf)
-    arr = const_values(kind or self.wk, shape,
-                       (self.pool, self.opidx, self.slot))
+    key = (self.pool, self.opidx, self.slot)
+    if weight and self.wkey is not None:
+      key = (self.pool, int(self.wkey), 1)   # values of another op's weight
+    arr = const_values(kind or self.wk, shape, key)
     return self.g.constant(self.name(leaf), arr)
 
   def iconst(self, leaf, values):
@@ -400,7 +402,7 @@ def _b_bmm(c, v, ins):
 def _b_emb(c, v, ins):
   ids = c.g.ids_tensor()
   d = 4 if v == 'w4' else 3
-  w = c.fconst('table', [5, d], weight=True)
+  w = c.fconst('table', [4, d], weight=True)
   y = c.out([len(IDS), d])
   c.g.op(BO.EMBEDDING_LOOKUP, [ids, w], [y])
   return [y], 'IW', w
@@ -639,7 +641,8 @@ def build(ir):
         if mode == 'tensor' and ssi != si:
           return None
         share = (mode,) + src
-      c = _Ctx(g, tag, pool, 1000 * si + i, op.get('wk', 'rand'), share, sep)
+      c = _Ctx(g, tag, pool, 1000 * sub.get('cbase', si) + i,
+               op.get('wk', 'rand'), share, sep, op.get('wkey'))
       try:
         ins = [handles[r] for r in op['in']]
       except IndexError:
